@@ -3,13 +3,16 @@ from __future__ import annotations
 
 import asyncio
 import itertools
+import json
 import random
+import re
 import struct
 
 from cryptography.exceptions import InvalidTag
 from cryptography.hazmat.primitives.ciphers.aead import ChaCha20Poly1305
 
-from harness import cryptoval
+from harness import cryptoval, refacc, simnet
+from harness.acc import Accessory, http
 from harness.common import Ctx, Driver, compare_with_model, hx, load_corpus
 
 import aiohomekit.controller.ip.connection as ipc
@@ -21,12 +24,22 @@ RULE = ("outbound: payload lengths {0,1,1023,1024,1025,2047,2048,2049,3072,...} 
         "mixed, uniform 1..1024, many small frames) delivered as ONE read, as 256 KiB / 64 KiB / 16 KiB / 1460-byte reads, reads of 65535..65555 and 128 KiB, a few random cuts, "
         "a partial frame followed by the whole burst, a burst followed by a trickle - valid, truncated in the tail and single-bit-corrupted late in the burst; large requests "
         "(64 KiB..300 KiB, exact multiples of 1024 and +-1); whole sessions with the real HTTP layer on top (large request -> reference accessory, large Content-Length response "
-        "[+ an EVENT right behind it] -> the request future / event_received, several exchanges per session). "
+        "[+ an EVENT right behind it] -> the request future / event_received, several exchanges per session); "
+        "whole CONNECTIONS on the simulated network ('xs'): a real SecureHomeKitConnection (alone, or owned by an IpPairing that re-subscribes; request concurrency limit 1..3) connects to a reference "
+        "accessory that does a real pair-verify and answers M1 / M3 / requests after d2 / d4 / dr seconds, while callers use the PUBLIC entry points HomeKitConnection.get / get_json / put / put_json / "
+        "post / post_json / post_tlv / request and IpPairing.* before the connection exists, during the TCP connect, while M1 or M3 is in flight, in the instant of the switch and after it, over 1..3 "
+        "sessions ended by peer close / reset / close() / a stall, with losses, close()+reconnect and reconnect_soon() inside the windows - judged at the accessory: everything it receives on a "
+        "connection after it has sent M4 must be frames <=1024 that open under this session's key with counters 0,1,2,... and decrypt to whole requests, each one a request some caller made at that "
+        "time (exact method, target, headers given, body), every call that returned was carried by such frames and got the body the accessory sent (answers of any size, cut anywhere). "
         "non-trivial = distinct (stream kind, #frames, cut pattern class, outcome)")
-TRUSTED = ["cryptography's ChaCha20Poly1305 as the reference accessory AEAD", "Lean Real ChaCha20-Poly1305 (validated differentially in this run)"]
+TRUSTED = ["cryptography's ChaCha20Poly1305 as the reference accessory AEAD", "harness/simnet.py (virtual-time loop, in-memory transport) and harness/acc.py + harness/refacc.py (reference accessory, "
+           "real pair-verify written with `cryptography`) for the 'xs' connections", "Lean Real ChaCha20-Poly1305 (validated differentially in this run)"]
 ASSUMPTIONS = ["asyncio closes the transport when data_received raises (the model's `none` state = session ended)",
                "the HTTP layer above the decrypted blocks is replaced by a byte sink here (C07 covers it), except in the 'e2e' sessions which keep the real one and only "
-               "send plain Content-Length messages through it"]
+               "send plain Content-Length messages through it",
+               "'xs' connections: the accessory answers one request after the other, in order; what reaches it BEFORE it has sent M4 (requests made through HomeKitConnection while pair-verify "
+               "runs are written unencrypted) is counted, not judged - the property speaks about the established session; with a concurrency limit > 1 a request written in the very instant in "
+               "which M4 arrives, before the new keys were used once, is not judged either (the controller may not have looked at M4 yet)"]
 EXPLANATION = "Lean theorems C05_* over the frame-loop model with an abstract AEAD; model tied to SecureHomeKitProtocol by differential streams send/recv"
 
 
@@ -406,6 +419,631 @@ def e2e_run(loop, case):
         return "e2e/exc " + type(e).__name__, f"session raised {type(e).__name__}: {e}"
 
 
+# ---------------------------------------------------------------------------------------------------------------------
+# whole connections on the simulated network: the callers use the PUBLIC entry points (HomeKitConnection.get / get_json / put /
+# put_json / post / post_json / post_tlv / request, IpPairing.*) at any moment of a connection's life - before it exists, during
+# the TCP connect, while M1 / M3 of pair-verify are in flight, right after the switch to the secure protocol, across a drop and
+# the reconnect - and everything is judged from what a conformant accessory receives on each connection after it has sent M4.
+
+XS_PLAN = {"d0": 0.01, "d2": 0.0, "d4": 0.0, "dr": 0.0, "verify": "ok", "plain": "470"}
+XS_ENDS = ("peer_close", "peer_reset", "close", "stall")
+XS_DB = [{"aid": 1, "services": [{"iid": 1, "type": "3E", "characteristics": [
+    {"iid": 2, "type": "23", "format": "string", "perms": ["pr"], "value": "x"},
+    {"iid": 3, "type": "25", "format": "bool", "perms": ["pr", "pw", "ev"], "value": False},
+    {"iid": 4, "type": "14", "format": "bool", "perms": ["pw"]}]}]}]
+_XS_BUGS = (AttributeError, TypeError, KeyError, IndexError, NameError, AssertionError, UnboundLocalError)
+_XS_REQLINE = re.compile(rb"^[A-Z]{1,12} \S+ HTTP/1\.1$")
+
+
+def _xs_body(arg):
+    return random.Random(arg.get("bseed", 0)).randbytes(arg.get("n", 0))
+
+
+def _xs_obj(arg):
+    return {"characteristics": [{"aid": 1, "iid": 3, "value": _xs_body(arg).hex()}], "k": arg.get("k", 0)}
+
+
+def _xs_exact(method, target, body=b"", obj=None, headers=()):
+    return {"exact": True, "method": method, "target": target, "body": body, "json": obj, "headers": [f"{h}: {v}" for h, v in headers]}
+
+
+def _e_get(c, p, a):
+    t = f"/characteristics?id=1.{a.get('k', 2)}"
+    return c.get(t), _xs_exact("GET", t)
+
+
+def _e_get_json(c, p, a):
+    t = f"/accessories?k={a.get('k', 0)}"
+    return c.get_json(t), _xs_exact("GET", t)
+
+
+def _e_put(c, p, a):
+    b = _xs_body(a)
+    return c.put("/characteristics", b), _xs_exact("PUT", "/characteristics", b, headers=[("Content-Length", len(b))])
+
+
+def _e_put_json(c, p, a):
+    o = _xs_obj(a)
+    return c.put_json("/characteristics", o), _xs_exact("PUT", "/characteristics", None, o)
+
+
+def _e_post(c, p, a):
+    b = _xs_body(a)
+    return c.post("/resource", b), _xs_exact("POST", "/resource", b, headers=[("Content-Length", len(b))])
+
+
+def _e_post_json(c, p, a):
+    o = _xs_obj(a)
+    return c.post_json("/resource", o), _xs_exact("POST", "/resource", None, o)
+
+
+def _e_post_tlv(c, p, a):
+    items = [(6, b"\x01"), (0, b"\x05"), (1, _xs_body(a))]
+    # (post_tlv returns normally with the body of a 4xx answer too: its return says nothing about the exchange)
+    return c.post_tlv("/pairings", items), dict(_xs_exact("POST", "/pairings", refacc.tlv(items)), returns_on_error=True)
+
+
+def _e_request(c, p, a):
+    b = _xs_body(a)
+    m = ("GET", "PUT", "POST", "DELETE")[a.get("k", 0) % 4]
+    t = f"/x/{a.get('k', 0)}"
+    hs = ([("Content-Length", len(b))] if b or m != "GET" else []) + [("X-Call", str(a.get("k", 0)))]
+    return c.request(method=m, target=t, headers=hs, body=b or None), _xs_exact(m, t, b, headers=hs)
+
+
+def _xs_loose(method, prefix):
+    return {"exact": False, "method": method, "prefix": prefix}
+
+
+XS_DIRECT = {"get": _e_get, "get_json": _e_get_json, "put": _e_put, "put_json": _e_put_json, "post": _e_post, "post_json": _e_post_json, "post_tlv": _e_post_tlv,
+             "request": _e_request}
+XS_PAIRING = {  # entry points of IpPairing (they wait for the connector before they send)
+    "p.la": lambda c, p, a: (p.list_accessories_and_characteristics(), _xs_loose("GET", "/accessories")),
+    "p.get": lambda c, p, a: (p.get_characteristics([(1, 2)]), _xs_loose("GET", "/characteristics")),
+    "p.put": lambda c, p, a: (p.put_characteristics([(1, 3, bool(a.get("k", 0) % 2))]), _xs_loose("PUT", "/characteristics")),
+    "p.sub": lambda c, p, a: (p.subscribe([(1, 3)]), None),
+    "p.lp": lambda c, p, a: (p.list_pairings(), _xs_loose("POST", "/pairings")),
+    "p.img": lambda c, p, a: (p.image(1, 4, 4), None),
+    "p.identify": lambda c, p, a: (p.identify(), _xs_loose("PUT", "/characteristics")),
+}
+XS_ENTRIES = {**XS_DIRECT, **XS_PAIRING}
+_XS_OWN = (("GET", "/accessories"), ("GET", "/characteristics"), ("PUT", "/characteristics"), ("POST", "/pairings"), ("POST", "/resource"))
+
+
+def _xs_answer(method, target, body, serial=0, pad=""):
+    """-> (the accessory's answer, its body); serial / pad make every answer different from every other and of any size"""
+    J = b"application/hap+json"
+
+    def js(o):
+        b = json.dumps(dict(o, serial=serial, pad=pad)).encode()
+        return http(b, J), b
+    if target.startswith("/accessories"):
+        return js({"accessories": XS_DB})
+    if target.startswith("/characteristics") and method == "GET":
+        rows = []
+        for i in (target.split("id=", 1)[1].split(",") if "id=" in target else []):
+            try:
+                rows.append({"aid": int(i.split(".")[0]), "iid": int(i.split(".")[1]), "value": "x"})
+            except (ValueError, IndexError):
+                pass
+        return js({"characteristics": rows})
+    if target.startswith("/characteristics"):
+        return b"HTTP/1.1 204 No Content\r\n\r\n", b""
+    if target == "/pairings":
+        b = refacc.tlv([(6, b"\x02"), (1, b"CONTROLLER-%d" % serial), (3, bytes(32)), (11, b"\x01")])
+        return http(b), b
+    return js({"ok": 1})
+
+
+class XAccessory(Accessory):
+    """harness/acc.py's accessory (real pair-verify, AEAD framing) that answers one request after the other (d2 / d4 / dr seconds
+    for M1 / M3 / a request of the session; d0 = TCP connect time) and keeps, per connection, the books the oracle needs:
+    what arrived before it sent M4, and after M4 a STRICT reading of the byte stream as frames of this session"""
+
+    def __init__(self, loop, net, rb, limit, rnd):
+        super().__init__(loop, net, rb, accessories=XS_DB)
+        self.plans = []
+        self.limit = limit
+        self.rnd = rnd
+        self.mute = False
+        self.serial = 0
+        self.notes = []
+
+    def on_connect(self, t):
+        super().on_connect(t)
+        s = self.sessions[t]
+        s.plan = dict(XS_PLAN, **(self.plans.pop(0) if self.plans else {}))
+        s.mode = s.plan["verify"]
+        s.m4_at = None   # virtual time at which this accessory sent M4 on this connection
+        s.pre = []       # (time, 'METHOD target'): requests other than pair-verify that arrived before M4
+        s.bad = None     # (signature, text): the first thing after M4 that is not a frame of this session / not a whole request
+        s.raced = 0      # limit > 1 only: bytes written in the very instant of M4, before anything was framed (see _broken)
+        s.frames = []    # plaintext sizes of the frames opened after M4
+        s.framed = []    # (time, method, target, header lines, body): the requests the frames decrypted to
+        s.answers = {}   # index in s.framed -> the body this accessory sent in answer
+        s.queue = []
+        s.busy = False
+        s.dead = False   # the framing broke: the accessory has stopped reading
+        s.silent = False  # the accessory says nothing more on this connection
+
+    # ---- what arrives
+    def on_write(self, t, data):
+        s = self.sessions[t]
+        now = self.loop.time()
+        if s.dead:
+            return
+        if s.m4_at is None:
+            s.buf += data
+            while True:
+                try:
+                    req = self._xs_take(s)
+                except ValueError:
+                    s.pre.append((now, f"bytes that are no HTTP request {s.buf[:16]!r}"))
+                    s.buf = b""
+                    return
+                if req is None:
+                    return
+                method, target, heads, body = req
+                if method == "POST" and target == "/pair-verify":
+                    s.queue.append(("verify", body))
+                else:
+                    s.pre.append((now, f"{method} {target}"))
+                    s.queue.append(("plain", method, target))
+                self._pump(t)
+        s.ebuf += data
+        while len(s.ebuf) >= 2:
+            n = struct.unpack("<H", s.ebuf[:2])[0]
+            if n <= 1024 and len(s.ebuf) < 2 + n + 16:
+                return
+            if n > 1024:
+                return self._broken(t, s, now, "xs/after-m4/length", f"the length prefix {bytes(s.ebuf[:2])!r} announces {n} > 1024 plaintext bytes ({len(s.ebuf)} bytes starting "
+                                    f"{bytes(s.ebuf[:40])!r}): not a frame of the secure session")
+            try:
+                plain = ChaCha20Poly1305(s.c2a).decrypt(nonce(s.rctr), s.ebuf[2:2 + n + 16], s.ebuf[:2])
+            except InvalidTag:
+                return self._broken(t, s, now, "xs/after-m4/unauthentic", f"frame #{s.rctr} ({n} plaintext bytes announced) does not open under this session's controller-to-accessory "
+                                    f"key with counter {s.rctr}")
+            s.rctr += 1
+            s.frames.append(n)
+            s.ebuf = s.ebuf[2 + n + 16:]
+            s.buf += plain
+            while True:
+                try:
+                    req = self._xs_take(s)
+                except ValueError:
+                    return self._broken(t, s, now, "xs/after-m4/not-a-request", f"the frames decrypt to bytes that are no HTTP request: {s.buf[:40]!r}")
+                if req is None:
+                    break
+                s.framed.append((now,) + req)
+                s.queue.append(("framed", len(s.framed) - 1) + req)
+                self._pump(t)
+
+    def _broken(self, t, s, now, sig, text):
+        if self.limit > 1 and now == s.m4_at and not s.frames:
+            # more than one request may be in flight: a request written in the very instant in which M4 arrives, before the
+            # controller has used the new keys once, may have been written before the controller looked at M4 - not judged
+            s.raced += 1
+        else:
+            s.bad = (sig, f"t={now:.3f} (M4 was sent at t={s.m4_at:.3f}, {len(s.frames)} frame(s) opened so far): {text}")
+        s.dead = True
+        s.ebuf = s.buf = b""
+        self.loop.call_soon(t.peer_close)  # a genuine accessory ends a session whose framing broke
+
+    @staticmethod
+    def _xs_take(s):
+        b = s.buf
+        i = b.find(b"\r\n\r\n")
+        if i < 0:
+            if len(b) >= 16 and b"\r\n" not in b[:4096] and not re.match(rb"^[A-Z]{1,12} ", b):
+                raise ValueError
+            if b"\r\n" in b and not _XS_REQLINE.match(b.split(b"\r\n", 1)[0]):
+                raise ValueError
+            return None
+        head = b[:i].split(b"\r\n")
+        if not _XS_REQLINE.match(head[0]):
+            raise ValueError
+        method, target, _ = head[0].split(b" ", 2)
+        cl = 0
+        for h in head[1:]:
+            if b":" not in h:
+                raise ValueError
+            if h.lower().startswith(b"content-length:"):
+                cl = int(h.split(b":")[1])
+        if len(b) < i + 4 + cl:
+            return None
+        s.buf = b[i + 4 + cl:]
+        return method.decode(), target.decode(), [h.decode("latin-1") for h in head[1:]], b[i + 4:i + 4 + cl]
+
+    # ---- one request after the other
+    def _pump(self, t):
+        s = self.sessions[t]
+        if s.busy or not s.queue or t.closing or t.closed:
+            return
+        item = s.queue.pop(0)
+        s.busy = True
+        if item[0] == "verify":
+            try:
+                step = refacc.untlv(item[1]).get(6)
+            except Exception:  # noqa: BLE001
+                step = None
+            d = s.plan["d2"] if step == b"\x01" else s.plan["d4"]
+        else:
+            d = s.plan["dr"] if item[0] == "framed" else 0.0
+        if d > 0:
+            self.loop.call_later(d, self._done, t, item)
+        else:
+            self.loop.call_soon(self._done, t, item)
+
+    def _done(self, t, item):
+        s = self.sessions[t]
+        s.busy = False
+        if t.closing or t.closed or s.dead or s.silent:
+            return
+        if item[0] == "verify":
+            if s.m4_at is not None:
+                return t.peer_close()
+            try:
+                self._verify(t, s, item[1])
+            except Exception as e:  # noqa: BLE001
+                self.notes.append(f"accessory could not process a pair-verify request: {type(e).__name__}")
+                return t.peer_close()
+            if s.secure and s.m4_at is None:
+                s.m4_at = self.loop.time()
+                s.buf = b""
+        elif item[0] == "plain":
+            if s.m4_at is not None:
+                # it arrived unencrypted while M3 was being processed; its turn comes on the secure session, where a genuine
+                # accessory reads those bytes as a frame and gives up
+                return t.peer_close()
+            if s.plan["plain"] == "470":
+                t.feed(http(b"", code=b"470 Connection Authorization Required"))
+            elif s.plan["plain"] == "close":
+                return t.peer_close()
+            else:
+                # 'ignore': the accessory says nothing more on this connection (answers are attributed by position: skipping one
+                # request and answering the next would not be HTTP)
+                s.silent = True
+                return
+        elif self.mute:
+            s.silent = True
+            return
+        else:
+            self.serial += 1
+            ans, body = _xs_answer(item[2], item[3], item[5], self.serial, "%x" % self.rnd.getrandbits(4 * n) if (n := self.rnd.choice([0, 0, 8, 600, 1100, 2600])) else "")
+            s.answers[item[1]] = body
+            L = len(ans) + 18 * (len(ans) // 1024 + 1)
+            self.send(t, ans, [self.rnd.randrange(1, L) for _ in range(self.rnd.choice([0, 0, 1, 2, 5]))] if s.plan.get("cuts", True) else ())
+        self._pump(t)
+
+
+async def _xs_settle(loop):
+    for _ in range(2000):
+        await asyncio.sleep(0)
+        if not loop._ready and not (loop._scheduled and any(not h._cancelled and h._when <= loop.time() for h in loop._scheduled)):
+            return
+
+
+def _xs_match(exp, req):
+    """does the request the accessory decrypted (method, target, header lines, body) carry this call?"""
+    method, target, heads, body = req
+    if not exp["exact"]:
+        return method == exp["method"] and target.startswith(exp["prefix"])
+    if method != exp["method"] or target != exp["target"]:
+        return False
+    if exp["json"] is not None:
+        try:
+            if json.loads(body) != exp["json"]:
+                return False
+        except ValueError:
+            return False
+    elif body != exp["body"]:
+        return False
+    return all(h in heads for h in exp["headers"])
+
+
+async def _xs_scenario(loop, hist):
+    """run one history -> (problems, stats)"""
+    from unittest.mock import MagicMock
+
+    from aiohomekit.characteristic_cache import CharacteristicCacheMemory
+    from aiohomekit.controller.ip.pairing import IpPairing
+    rnd = random.Random(hist["seed"])
+    limit = hist.get("limit", 1)
+    net = simnet.Net(loop)
+    acc = XAccessory(loop, net, lambda n: bytes(rnd.randrange(256) for _ in range(n)), limit, rnd)
+    connect_now = net.start_connection
+
+    async def start_connection(addr_infos, **kw):
+        await asyncio.sleep(max((acc.plans[0] if acc.plans else XS_PLAN).get("d0", 0.01), 0.001))  # a TCP connect takes a round trip
+        return await connect_now(addr_infos, **kw)
+    net.start_connection = start_connection
+    calls, tasks, problems, bugs = [], [], [], []
+    compared = 0
+    with net.patched():
+        pdata = acc.pairing_data(["10.0.0.1"])
+        p = None
+        if hist.get("owner"):
+            ctrl = MagicMock()
+            ctrl._char_cache = CharacteristicCacheMemory()
+            p = IpPairing(ctrl, pdata)
+            conn = p.connection
+        else:
+            conn = ipc.SecureHomeKitConnection(None, pdata)
+        if limit > 1:
+            # HomeKitConnection's public concurrency_limit parameter, which SecureHomeKitConnection's constructor does not pass on
+            ipc.HomeKitConnection.__init__(conn, p, conn.hosts, conn.port, concurrency_limit=limit)
+
+        async def call(entry, arg):
+            rec = {"entry": entry, "start": loop.time(), "end": None, "outcome": "pending", "exp": None}
+            calls.append(rec)
+            try:
+                coro, rec["exp"] = XS_ENTRIES[entry](conn, p, arg)
+                r = await coro
+                rec["outcome"] = "returned"
+                if hasattr(r, "body") and hasattr(r, "code"):
+                    rec["result"] = ("bytes", bytes(r.body))
+                elif isinstance(r, dict):
+                    rec["result"] = ("json", r)
+            except asyncio.CancelledError:
+                rec["outcome"] = "cancelled"
+                raise
+            except BaseException as e:  # noqa: BLE001
+                rec["outcome"] = "raised:" + type(e).__name__
+                if isinstance(e, _XS_BUGS):
+                    rec["bug"] = f"{type(e).__name__}: {e}"
+            finally:
+                rec["end"] = loop.time()
+
+        async def kick():
+            try:
+                await conn.ensure_connection()
+            except Exception:  # noqa: BLE001
+                pass
+
+        async def end(how):
+            if how in ("peer_close", "peer_reset"):
+                if net.open:
+                    getattr(net.open[-1], how)()
+            elif how == "close":
+                await (p.close() if p is not None else conn.close())
+            elif how == "reconnect_soon":
+                conn.reconnect_soon()
+            elif how == "stall":
+                # the accessory goes silent: the request layer gives the session up by itself after its time-out
+                if net.open and acc.sessions[net.open[-1]].m4_at is not None:
+                    acc.mute = True
+                    t = asyncio.ensure_future(call("get", {"k": 9}))
+                    await asyncio.wait([t], timeout=60)
+                    acc.mute = False
+
+        for ep in hist["epochs"]:
+            acc.plans = [dict(x) for x in ep["plans"]]  # for the connections opened from now on
+            if ep["end"] == "stall":
+                await end("stall")
+                timeline = []
+            else:
+                timeline = [(0.0, 0, "end", ep["end"], None)]
+            timeline += [(float(off), 3, "call", entry, arg) for off, entry, arg in ep["calls"]]
+            timeline += [(float(off), 2, "kick" if how == "kick" else "end", how, None) for off, how in ep.get("events", [])]
+            if ep.get("kick"):
+                timeline.append((0.0, 1, "kick", None, None))
+            base = loop.time() + max(0.0, -min([x[0] for x in timeline] or [0.0]))
+            for off, _, kind, what, arg in sorted(timeline, key=lambda x: (x[0], x[1])):
+                dt = base + off - loop.time()
+                if dt > 0:
+                    await asyncio.sleep(dt)
+                if kind == "end":
+                    await end(what)
+                elif kind == "kick":
+                    tasks.append(asyncio.ensure_future(kick()))
+                elif what in XS_DIRECT or p is not None:
+                    tasks.append(asyncio.ensure_future(call(what, arg)))
+            pending = [t for t in tasks if not t.done()]
+            if pending:
+                await asyncio.wait(pending, timeout=200)
+            await asyncio.sleep(ep.get("idle", 0.5))
+            await _xs_settle(loop)
+        for t in tasks:
+            t.cancel()
+        try:
+            await (p.close() if p is not None else conn.close())
+        except Exception as e:  # noqa: BLE001
+            acc.notes.append(f"close raised {type(e).__name__}")
+        await _xs_settle(loop)
+    # ---- the property, stated on what the accessory received after it had sent M4 and on what the callers asked for
+    for rec in calls:
+        rec["used"] = False
+    for s in acc.order:
+        if s.m4_at is None:
+            continue
+        where = f"connection {s.idx}"
+        if s.bad:
+            problems.append((s.bad[0], f"{where}, {s.bad[1]}"))
+        elif not s.dead and (s.ebuf or s.buf):
+            problems.append(("xs/after-m4/partial", f"{where}: the connection ended with {len(s.ebuf)} bytes of an incomplete frame and {len(s.buf)} decrypted bytes of an incomplete request "
+                             f"({bytes(s.buf[:40])!r}) - the frames do not decrypt to whole requests"))
+        if any(n > 1024 for n in s.frames):
+            problems.append(("xs/after-m4/length", f"{where}: frame sizes {s.frames[:12]}"))
+        for idx, (when, method, target, heads, body) in enumerate(s.framed):
+            req = (method, target, heads, body)
+            hit = next((r for r in calls if r["exp"] and r["exp"]["exact"] and not r["used"] and r["start"] <= when <= (r["end"] if r["end"] is not None else when)
+                        and _xs_match(r["exp"], req)), None)
+            if hit is not None:
+                hit["used"] = True
+                hit["answer"] = s.answers.get(idx)
+                continue
+            if not any(h.lower().startswith("host:") for h in heads):
+                problems.append(("xs/after-m4/unrequested", f"{where}, t={when:.3f}: the frames decrypt to '{method} {target}' without a Host header"))
+            if p is not None and any(method == m and target.split("?")[0] == tg for m, tg in _XS_OWN):
+                continue  # the pairing's own requests (re-subscription, database fetch, the IpPairing calls of this history)
+            problems.append(("xs/after-m4/unrequested", f"{where}, t={when:.3f}: the frames decrypt to '{method} {target}' with a body of {len(body)} bytes - no caller made that request "
+                             f"at that time (or made it once and it arrived twice, or its bytes are not the caller's)"))
+    for rec in calls:
+        if rec.get("bug"):
+            # not a matter of the framing: noted with its input, never a verdict of this property
+            bugs.append((rec["bug"], f"{rec['entry']} issued at t={rec['start']:.3f}"))
+        if rec["outcome"] != "returned" or not rec["exp"] or rec["exp"].get("returns_on_error"):
+            continue
+        exp = rec["exp"]
+        if exp["exact"] and rec["used"] and rec.get("result") and rec.get("answer") is not None:
+            kind, got = rec["result"]
+            sent = rec["answer"]
+            compared += 1
+            if kind == "bytes":
+                same = got == sent
+            else:
+                try:
+                    same = got == (json.loads(sent) if sent else {})
+                except ValueError:
+                    same = True
+            if not same:
+                problems.append(("xs/response", f"{rec['entry']} ({exp['method']} {exp['target']}) issued at t={rec['start']:.3f} returned {str(got)[:60]!r}... ({len(got)} bytes / items), which is not "
+                                 f"the {len(sent)}-byte body the accessory sent in answer to that request ({sent[:60]!r}...)"))
+        if exp["exact"] and not rec["used"]:
+            problems.append(("xs/returned-unframed", f"{rec['entry']} ({exp['method']} {exp['target']}) issued at t={rec['start']:.3f} returned normally at t={rec['end']:.3f} although no frames "
+                             f"that decrypt to exactly that request reached the accessory on a verified connection while the call ran"))
+        elif not exp["exact"] and not any(rec["start"] <= when <= rec["end"] and _xs_match(exp, (m, tg, hs, b)) for s in acc.order for when, m, tg, hs, b in s.framed):
+            problems.append(("xs/returned-unframed", f"{rec['entry']} issued at t={rec['start']:.3f} returned normally although the accessory received no {exp['method']} {exp['prefix']} in frames "
+                             f"of a verified session while the call ran"))
+    stats = {"connections": len(acc.order), "verified": sum(1 for s in acc.order if s.m4_at is not None), "calls": [(r["entry"], r["outcome"]) for r in calls],
+             "framed": sum(len(s.framed) for s in acc.order), "frames": sum(len(s.frames) for s in acc.order), "multi": sum(1 for s in acc.order for n in s.frames if n == 1024),
+             "pre": [(s.idx, w, what) for s in acc.order for w, what in s.pre], "raced": sum(s.raced for s in acc.order), "notes": acc.notes, "bugs": bugs,
+             "compared": compared}
+    return problems, stats
+
+
+def xs_run(hist):
+    loop = simnet.VLoop()
+    asyncio.set_event_loop(loop)
+    try:
+        return loop.run_until_complete(_xs_scenario(loop, hist))
+    finally:
+        try:
+            loop.run_until_complete(loop.shutdown_asyncgens())
+        except Exception:  # noqa: BLE001
+            pass
+        loop.close()
+        asyncio.set_event_loop(None)
+
+
+def _xs_arg(rng, k):
+    return {"k": k, "n": rng.choice([0, 1, 40, 900, 1024, 1500, rng.randrange(0, 3000)]), "bseed": rng.randrange(1 << 30)}
+
+
+def _xs_plan(rng, ok=False):
+    return {"d0": rng.choice([0.001, 0.01, 0.01, 0.2]),
+            "d2": rng.choice([0.0, 0.05, 0.4, 0.4, 2.0, 9.0, 31.0]),
+            "d4": rng.choice([0.0, 0.05, 0.4, 0.4, 2.0, 9.0]),
+            "dr": rng.choice([0.0, 0.0, 0.3, 2.0]),
+            "verify": "ok" if ok or rng.random() < 0.85 else rng.choice(["badsig", "err12", "err22", "close1", "reset2", "close2", "hang", "http470"]),
+            "plain": rng.choice(["470", "470", "ignore", "close"])}
+
+
+def xs_gen(rng):
+    owner = rng.random() < 0.4
+    entries = list(XS_DIRECT) * 2 + (list(XS_PAIRING) if owner else [])
+    epochs, k = [], 10
+    for i in range(rng.choice([1, 2, 2, 3, 3])):
+        end = "first" if i == 0 else rng.choice(XS_ENDS)
+        plan = _xs_plan(rng, ok=rng.random() < 0.6)
+        plans = [plan] + ([_xs_plan(rng, ok=True)] if plan["verify"] != "ok" else [])
+        d0, d2, d4 = plan["d0"], plan["d2"], plan["d4"]
+        calls = []
+        for _ in range(rng.choice([1, 1, 2, 3, 4, 6])):
+            w = rng.choice(["before", "tcp", "m2", "m2", "m4", "m4", "m4", "after", "after"])
+            f = rng.choice([0.0, 0.001, 0.25, 0.5, 0.75, 0.999, 1.0, rng.random()])
+            off = {"before": -rng.choice([0.05, 0.2]), "tcp": d0 * f, "m2": d0 + d2 * f, "m4": d0 + d2 + d4 * f, "after": d0 + d2 + d4 + rng.choice([0.0, 0.0, 0.001, 0.1, 3.0])}[w]
+            k += 1
+            calls.append([round(off, 6), rng.choice(entries), _xs_arg(rng, k)])
+        kick = end in ("first", "close") and (not owner or rng.random() < 0.7)
+        events = []
+        if rng.random() < 0.3:
+            # the connection is lost / closed / hurried somewhere inside the windows as well, not only between two sessions
+            how = rng.choice(["peer_close", "peer_reset", "close", "reconnect_soon", "reconnect_soon"])
+            at = rng.choice([d0 * 0.5, d0 + d2 * rng.random(), d0 + d2 + d4 * rng.random(), d0 + d2 + d4, d0 + d2 + d4 + rng.choice([0.001, 0.1, 1.0])])
+            events.append([round(at, 6), how])
+            if how == "close":
+                events.append([round(at + rng.choice([0.0, 0.05, 1.0]), 6), "kick"])
+        epochs.append({"end": end, "plans": plans, "calls": calls, "events": events, "kick": kick, "idle": rng.choice([0.0, 0.5, 5.0])})
+    return {"stream": "xsession", "seed": rng.randrange(1 << 30), "owner": owner, "limit": rng.choice([1, 1, 1, 2, 3]), "epochs": epochs}
+
+
+def xs_grid(rng):
+    """every way the previous session can have ended (none: the first connection) x the window of the new pair-verify in which
+    the callers act (M1 sent and M2 outstanding / M3 sent and M4 outstanding / the instant after the switch) x every entry point of
+    the connection, one or two callers, the connection alone and under an IpPairing that re-subscribes on it"""
+    out, k = [], 100
+    for end in ("first",) + XS_ENDS:
+        for window in ("m2", "m4", "after"):
+            for entry in XS_DIRECT:
+                for owner in (False, True):
+                    d = rng.choice([0.4, 2.0, 6.0])
+                    plan = dict(XS_PLAN, d2=d if window == "m2" else 0.0, d4=d if window == "m4" else 0.0, plain=rng.choice(["470", "ignore", "close"]), dr=rng.choice([0.0, 0.3]))
+                    at = plan["d0"] + (d * rng.choice([0.25, 0.5, 0.9]) if window != "after" else d * 0 + rng.choice([0.0, 0.001]))
+                    k += 2
+                    calls = [[round(at, 6), entry, _xs_arg(rng, k)]]
+                    if rng.random() < 0.5:
+                        calls.append([round(at + rng.choice([0.0, 0.01]), 6), rng.choice(list(XS_DIRECT)), _xs_arg(rng, k + 1)])
+                    if owner:
+                        calls.insert(0, [-0.05, "p.sub", {"k": 0}])
+                    ep = {"end": end, "plans": [plan], "calls": calls, "kick": True, "idle": 0.5}
+                    first = {"end": "first", "plans": [dict(XS_PLAN)], "calls": [[0.5, rng.choice(["get", "put_json", "post"]), _xs_arg(rng, k + 50)]], "kick": True, "idle": 0.5}
+                    out.append({"stream": "xsession", "seed": rng.randrange(1 << 30), "owner": owner, "limit": 1, "epochs": [ep] if end == "first" else [first, ep]})
+    return out
+
+
+def _run_xsessions(ctx):
+    rng = ctx.rng
+    hists = xs_grid(rng)
+    if not ctx.thorough():
+        # the quick tier keeps every (window, entry point) of the first connection and a sample of the rest
+        keep = [h for h in hists if len(h["epochs"]) == 1 and not h["owner"]]
+        rest = [h for h in hists if not (len(h["epochs"]) == 1 and not h["owner"])]
+        hists = keep + rng.sample(rest, min(len(rest), ctx.budget(60, len(rest))))
+    hists += [xs_gen(rng) for _ in range(ctx.budget(150, 4000))]
+    sampled = False
+    for hist in hists:
+        ctx.evaluations += 1
+        try:
+            problems, stats = xs_run(hist)
+        except Exception as e:  # noqa: BLE001
+            problems = [(f"xs/exc {type(e).__name__}", f"the history could not be run to its end: {type(e).__name__}: {e}")]
+            stats = {"connections": 0, "verified": 0, "calls": [], "framed": 0, "frames": 0, "multi": 0, "pre": [], "raced": 0, "notes": [], "bugs": [], "compared": 0}
+        ctx.nontrivial.add(("xs", hist["owner"], hist["limit"], tuple(ep["end"] for ep in hist["epochs"]), tuple(sorted(set(stats["calls"]))), min(stats["verified"], 3), bool(stats["pre"])))
+        ctx.dist["xs:histories"] += 1
+        ctx.dist[f"xs:limit={hist['limit']}:{'pairing' if hist['owner'] else 'connection'}"] += 1
+        ctx.dist["xs:verified-connections"] += stats["verified"]
+        ctx.dist["xs:requests-decrypted-after-M4"] += stats["framed"]
+        ctx.dist["xs:frames-opened"] += stats["frames"]
+        ctx.dist["xs:frames-of-1024"] += stats["multi"]
+        ctx.dist["xs:plain-request-before-M4 (not judged here)"] += len(stats["pre"])
+        ctx.dist["xs:written-in-the-instant-of-M4 (limit>1, not judged)"] += stats["raced"]
+        ctx.dist["xs:answers-compared-with-what-the-caller-got"] += stats["compared"]
+        for bug, at in stats["bugs"]:
+            ctx.dist[f"xs:call raised {bug.split(':')[0]} (noted, not a framing matter)"] += 1
+            if not any(bug in n for n in ctx.notes):
+                ctx.notes.append(f"xs: (not a matter of this property, noted only) {at} of history seed={hist['seed']} raised {bug}: {json.dumps(hist)[:700]}")
+        for entry, outcome in stats["calls"]:
+            ctx.dist[f"xs:call:{entry}:{outcome}"] += 1
+        for ep in hist["epochs"]:
+            ctx.dist[f"xs:end:{ep['end']}"] += 1
+        for n in stats["notes"]:
+            if "xs: " + n not in ctx.notes and len(ctx.notes) < 20:
+                ctx.notes.append("xs: " + n)
+        if stats["pre"] and not any(n.startswith("xs: before M4") for n in ctx.notes):
+            i, w, what = stats["pre"][0]
+            ctx.notes.append(f"xs: before M4 (not a matter of this property, counted only): a request made through HomeKitConnection while pair-verify runs is written unencrypted, e.g. '{what}' "
+                             f"on connection {i} at t={w:.3f} of history seed={hist['seed']}")
+        if not sampled and len(hist["epochs"]) > 1 and stats["framed"] > 1:
+            sampled = True
+            ctx.sample(hist, limit=10)
+        done = set()
+        for sig, text in problems:
+            if sig not in done:
+                done.add(sig)
+                ctx.violation(sig, text, hist)
+
+
 def run(ctx: Ctx, driver: Driver):
     rng = ctx.rng
     loop = asyncio.new_event_loop()
@@ -544,6 +1182,7 @@ def run(ctx: Ctx, driver: Driver):
     _run_large_recv(ctx, driver, loop)
     _run_e2e(ctx, loop)
     loop.close()
+    _run_xsessions(ctx)
 
 
 def _run_large_send(ctx, driver, loop):
@@ -669,6 +1308,9 @@ def replay(ctx, driver, c):
             v = e2e_run(loop, c)
             if v:
                 return v[1]
+        elif c["stream"] == "xsession":
+            problems, _ = xs_run(c)
+            return "; ".join(f"{sg}: {tx}" for sg, tx in problems) or None
         elif c["stream"] == "send":
             key = bytes.fromhex(c["key"])
             payload = _send_payload(c)
